@@ -405,6 +405,9 @@ func drawComputed(t *rapid.T, c *Case) (nonTrivial bool) {
 			bodyHasDice = true
 		}
 		v := VarDef{Name: names[i], Expr: printNode(body), Body: body, InProg: inProg}
+		if !inProg {
+			v.Host = rapid.IntRange(0, 3).Draw(t, "hostComputed") == 0
+		}
 		c.Vars = append(c.Vars, v)
 		avail = append(avail, v)
 		if inProg {
